@@ -181,7 +181,11 @@ func runMutant(exe, repo string, m mutant) (status, detail string) {
 	if out, err := cmd.CombinedOutput(); err != nil {
 		return "skipped", "diff does not apply to the current tree: " + strings.TrimSpace(string(out))
 	}
-	c2 := exec.Command(exe, "-repo", tmp, "-property", m.Property, "-no-evidence", "-json")
+	prop := m.Property
+	if m.Expect == "silent" {
+		prop = "all" // a behaviour-preserving variant must not trip any check
+	}
+	c2 := exec.Command(exe, "-repo", tmp, "-property", prop, "-no-evidence", "-json")
 	c2.Env = append(os.Environ(), "VERIF_DIR="+verifDir())
 	out, _ := c2.Output()
 	// last line is the JSON array
@@ -197,7 +201,7 @@ func runMutant(exe, repo string, m mutant) (status, detail string) {
 	named := false
 	for _, o := range obls {
 		if o.Status != Discharged {
-			fired = append(fired, o.Rule+"@"+o.Construct)
+			fired = append(fired, o.Property+"/"+o.Rule+"@"+o.Construct)
 			if m.Rule == "" || o.Rule == m.Rule || strings.HasPrefix(o.Rule, m.Rule) {
 				named = true
 			}
